@@ -15,7 +15,7 @@ import (
 	"k8s.io/apimachinery/pkg/types"
 )
 
-var c11Scenarios = []string{"first-deploy", "rolling-update", "canary-time", "canary-validate", "canary-fail", "node-churn", "setting-change", "migration"}
+var c11Scenarios = []string{"first-deploy", "rolling-update", "canary-time", "canary-validate", "canary-fail", "canary-fail-late", "node-churn", "setting-change", "migration"}
 
 const c11Slices = 6
 
@@ -37,6 +37,10 @@ func genC11World(r *rand.Rand, scenario string) *World {
 		e.Strategy.Canary = &CanaryDef{Replicas: pick(r, "1", "2"), ValidationMode: "manual"}
 	case "canary-fail":
 		e.Strategy.Canary = &CanaryDef{Replicas: "1", Duration: "30m"}
+	case "canary-fail-late":
+		// as canary-fail, but the controller that takes over after the fault does so only after
+		// the canary duration has elapsed
+		e.Strategy.Canary = &CanaryDef{Replicas: "1", Duration: "2m", NoRestartsDuration: "1m"}
 	case "setting-change":
 		w.Settings = []*SettingDef{{NS: "ns1", Name: "set0", Ref: "foo", Selector: map[string]string{"zone": "a"}, Container: "main", Cpu: "500m", AgeSec: 10}}
 		w.Extra["c10"] = "1"
@@ -59,6 +63,13 @@ func (s *Sim) until(r *rand.Rand, max int, cond func() bool) bool {
 		}
 		s.step++
 		s.Round(r)
+		if s.lateFrom > 0 && s.faultsFired > s.lateSeen {
+			s.lateSeen = s.faultsFired
+			if s.ctrlCalls > s.lateFrom {
+				s.logf("c11 late recovery: 3m pass before the next reconcile")
+				s.Advance(3 * time.Minute)
+			}
+		}
 	}
 	return cond()
 }
@@ -126,12 +137,15 @@ func bodyC11(s *Sim) {
 		s.countCalls = false
 		s.RunCLI("canary-validate", key)
 		s.countCalls = true
-	case "canary-fail":
+	case "canary-fail", "canary-fail-late":
 		s.userSetTemplate(def.NS, def.Name, "B")
 		s.until(r, max, canaryRunning)
 		s.countCalls = false
 		s.RunCLI("canary-fail", key)
 		s.countCalls = true
+		if scen == "canary-fail-late" {
+			s.lateFrom = s.ctrlCalls + 1
+		}
 	case "node-churn":
 		s.Store.Remove(objKey{KNode, "", s.W.Nodes[0].Name})
 		_, _ = s.Store.CreateObj(s.W.SpareNodes[0].Object())
@@ -317,7 +331,7 @@ func init() {
 	register(&Profile{Name: "C11", Decide: []string{"C11"}, Level: "fault_enumeration", Quick: units * c11Slices, Thorough: units * 6 * c11Slices, Body: bodyC11, Multi: multiC11,
 		Gen:        func(r *rand.Rand, tier string, idx int) *World { return genC11World(r, c11Scenarios[0]) },
 		NonVacuous: []string{"C11.faulted-run"}, Chunk: 1, Exhaustive: true,
-		Rule: "Corpus of 8 scripted, barrier-synchronised scenarios (first deployment, rolling update, canary promoted by time, canary validated, canary failed and rolled back, node removal and addition, setting change, migration from an old DaemonSet with foreign look-alike pods), each over 1 (quick) or 6 (thorough) seeds that vary cluster size, configuration, node-assignment mode and schedule. For each (scenario, seed) the failure-free run is recorded; then for EVERY index k of the API calls issued by controller tasks during the scenario and every applicable fault kind (reads: rejected; writes: rejected, applied-but-reply-lost, crash before, crash after with fresh reconcilers) the same seed is re-run with that single fault, continued to quiescence, checked against all safety monitors at every step and compared with the failure-free final state. Thorough adds 40 PRNG-sampled fault pairs per slice. The space (calls x kinds) of each listed scenario/seed is enumerated completely; one evaluation = one slice of a unit."})
+		Rule: "Corpus of 9 scripted, barrier-synchronised scenarios (first deployment, rolling update, canary promoted by time, canary validated, canary failed and rolled back, the same with the recovery after a fault delayed past the canary duration, node removal and addition, setting change, migration from an old DaemonSet with foreign look-alike pods), each over 1 (quick) or 6 (thorough) seeds that vary cluster size, configuration, node-assignment mode and schedule. For each (scenario, seed) the failure-free run is recorded; then for EVERY index k of the API calls issued by controller tasks during the scenario and every applicable fault kind (reads: rejected; writes: rejected, applied-but-reply-lost, crash before, crash after with fresh reconcilers) the same seed is re-run with that single fault, continued to quiescence, checked against all safety monitors at every step and compared with the failure-free final state. Thorough adds 40 PRNG-sampled fault pairs per slice. The space (calls x kinds) of each listed scenario/seed is enumerated completely; one evaluation = one slice of a unit."})
 }
 
 var _ = json.Marshal
